@@ -8,6 +8,9 @@ CONSTANTS
   MaxChunk = 2
   ReadSizes = {0, 1, 2}
   MaxHist = 5
+  MaxConds = 1
+  OneShots = {"err"}
+  CloseErrs = {FALSE, TRUE}
 CONSTRAINT Bound
 INVARIANTS StepsAllowed StateInv
 CHECK_DEADLOCK FALSE
